@@ -81,6 +81,18 @@ Theorem live_char_initial_positive : forall incl g I, wf_cfg g = true ->
 Proof. exact live_initial_positive. Qed.
 Print Assumptions live_char_initial_positive.
 
+(* ... and as an equivalence: for a variable of the initial set (a borrowed variable),
+   live before b  <->  read on some path from b before being reassigned, OR there are walks of
+   every length from b that never reassign it (in a finite graph: an infinite such path, i.e.
+   the function may loop forever without giving the variable a new value) *)
+Theorem live_char_initial_paths : forall incl g I, wf_cfg g = true ->
+  forall s', sched_run (live_step Repaired incl g) fst (live_init g I) s' ->
+  forall b x, b < nblocks g -> In x I ->
+    (In x (getv (snd s') b) <->
+     live_on_path incl g x b \/ (forall k, exists p, length p = k /\ idle_walk incl g x b p)).
+Proof. intros incl g I W. exact (live_initial_paths incl g W I). Qed.
+Print Assumptions live_char_initial_paths.
+
 (** ** Definitely / maybe assigned = all-paths / some-path solution, for every pop order *)
 
 (* definitely assigned before b  <->  x is a known variable and NO path from a source (a block
